@@ -7,6 +7,12 @@ Import ListNotations.
 (* ------------------------------------------------------------------------------------ *)
 (* 0. lists                                                                               *)
 (* ------------------------------------------------------------------------------------ *)
+Lemma existsb_lazy_eq : forall A (f : A -> bool) l, existsb_lazy f l = existsb f l.
+Proof. induction l as [|a t IH]; cbn; [reflexivity|]. rewrite IH. destruct (f a); reflexivity. Qed.
+
+Lemma existsb_ext_pt : forall A (f g : A -> bool) l, (forall x, f x = g x) -> existsb f l = existsb g l.
+Proof. intros A f g l H. induction l as [|a t IH]; cbn; [reflexivity|]. rewrite H, IH. reflexivity. Qed.
+
 Lemma picks_perm : forall A (l : list A) x r, In (x, r) (picks l) -> Permutation (x :: r) l.
 Proof.
   induction l as [|a t IH]; cbn; intros x r H; [contradiction|].
@@ -193,6 +199,17 @@ Section HistProofs.
       apply rt_beforeb_spec in E. exfalso. exact (H b Hb E).
   Qed.
 
+  Lemma lin_search_unfold : forall f s a t,
+    lin_search (Datatypes.S f) s (a :: t) =
+    existsb (fun p => minimal Op Reply (fst p) (snd p) &&
+                      rep_eqb (snd (step s (o_op (fst p)))) (o_rep (fst p)) &&
+                      lin_search f (fst (step s (o_op (fst p)))) (snd p)) (picks (a :: t)).
+  Proof.
+    intros. cbn [Actor.lin_search]. rewrite existsb_lazy_eq. apply existsb_ext_pt.
+    intros p. destruct (minimal Op Reply (fst p) (snd p)); [|reflexivity].
+    destruct (rep_eqb (snd (step s (o_op (fst p)))) (o_rep (fst p))); reflexivity.
+  Qed.
+
   Lemma lin_search_sound : forall fuel s todo,
     lin_search fuel s todo = true ->
     exists order, Permutation order todo /\ legal s (map opr order) /\ rt_ok order.
@@ -201,7 +218,7 @@ Section HistProofs.
     - destruct todo; cbn in H; [|discriminate]. exists []. repeat split; constructor.
     - destruct todo as [|a t].
       + exists []. repeat split; constructor.
-      + cbn [Actor.lin_search] in H. apply existsb_exists in H. destruct H as [[o r] [Hp H]].
+      + rewrite lin_search_unfold in H. apply existsb_exists in H. destruct H as [[o r] [Hp H]].
         cbn [fst snd] in H. apply andb_true_iff in H. destruct H as [H H3].
         apply andb_true_iff in H. destruct H as [H1 H2].
         apply IH in H3. destruct H3 as [order [P [Hl Hr]]].
@@ -221,7 +238,7 @@ Section HistProofs.
     - destruct todo as [|a t]; [apply Permutation_nil in P; discriminate|].
       destruct fuel as [|f]; [cbn in Hf; lia|].
       destruct (picks_complete _ _ _ _ P) as [r [Hp Pr]].
-      cbn [Actor.lin_search]. apply existsb_exists. exists (o, r). split; [exact Hp|].
+      rewrite lin_search_unfold. apply existsb_exists. exists (o, r). split; [exact Hp|].
       cbn [fst snd]. cbn in Hl, Hr. destruct Hl as [Hl1 Hl2]. destruct Hr as [Hr1 Hr2].
       apply andb_true_iff; split; [apply andb_true_iff; split|].
       + apply minimal_spec. intros b Hb. apply Hr1. eapply Permutation_in; [exact Pr|exact Hb].
